@@ -496,3 +496,11 @@ Example ex_case6 :
   iterate_and_store [[false; true]; [true; false]] true
   = Some [((9999, 0), (0, 9999)); ((1, 10000), (10000, 1))].
 Proof. vm_compute. split; reflexivity. Qed.
+
+(* the defect repaired by commit 726e2fa: the L-shaped mask in the corner of
+   a 2x2 frame.  Before: an open contour of two points (the corner pixel
+   (0,0) is missing); now: the closed contour through all three pixels. *)
+Example ex_border_contour :
+  run_get_contour_unpadded [[true; true]; [true; false]] = [1; 0; 1; 1; 0] /\
+  run_get_contour [[true; true]; [true; false]] = [1; 1; 0; 0; 0; 0; 1].
+Proof. vm_compute. split; reflexivity. Qed.
